@@ -217,4 +217,53 @@ pub(crate) mod arrays {
             kani::cover!(true);
         }
     }
+
+    // AdditiveShare::from_byte_slice: the decoder of the query-result layout
+    harness! {
+        #[kani::unwind(5)]
+        fn q09_share_slice_decoding() {
+            let buf: [u8; 6] = kani::any();
+            let n: usize = kani::any();
+            kani::assume(n <= 3);
+            let mut it = AdditiveShare::<Fp31>::from_byte_slice(&buf[..2 * n]);
+            let mut k = 0;
+            while k < n {
+                match it.next() {
+                    Some(Ok(x)) => {
+                        assert!(buf[2 * k] < 31 && buf[2 * k + 1] < 31, "only canonical records decode");
+                        let mut out = [0u8; 2];
+                        x.serialize(ga_mut!(out));
+                        assert!(out[0] == buf[2 * k] && out[1] == buf[2 * k + 1], "records come out in order");
+                    }
+                    Some(Err(e)) => {
+                        assert!(buf[2 * k] >= 31 || buf[2 * k + 1] >= 31);
+                        std::mem::forget(e);
+                    }
+                    None => assert!(false, "every encoded record is yielded"),
+                }
+                k += 1;
+            }
+            assert!(it.next().is_none(), "nothing beyond the encoded records");
+            kani::cover!(n == 3);
+        }
+    }
+    harness! {
+        #[kani::unwind(5)]
+        fn q09_share_slice_partial_record_mustpanic() {
+            // a buffer that is not a whole number of records is not the encoding of anything: it must be
+            // refused loudly, not silently truncated
+            let buf: [u8; 5] = kani::any();
+            let n: usize = kani::any();
+            kani::assume(n == 1 || n == 3 || n == 5);
+            kani::cover!(true);
+            let mut it = AdditiveShare::<Fp31>::from_byte_slice(&buf[..n]);
+            let mut k = 0;
+            while k < 3 {
+                let r = it.next();
+                std::mem::forget(r);
+                k += 1;
+            }
+            assert!(false, "MUST NOT RETURN: a trailing partial record was silently dropped");
+        }
+    }
 }
